@@ -574,7 +574,85 @@ export const G = iso(`field User.G@component{ name, }`)(() => 1);\n\
 export const GG = iso(`\t \n field User.GG { name, }`)(() => 1);\n\
 export const H = iso(`field Query.H { me { A, B, C, D, E, F, G, GG, }, }`)(() => 1);\n\
 iso(`entrypoint  Query.H`);\n";
+    let client_desc = r#"import { iso } from './__isograph/iso';
+export const Foo = iso(`
+  field User.Foo "ends */ here, it's `quoted`" {
+    name
+  }
+`)(() => 1);
+export const Bar = iso(`
+  field User.Bar @component """
+    block */ description
+    second 'line' \\ back
+  """ {
+    name
+  }
+`)(() => 1);
+export const Home = iso(`
+  field Query.Home {
+    me {
+      Foo
+      Bar
+      friend(nick: "lsLSpsPS \u0041 \/ \t $x */ //") {
+        name
+      }
+    }
+  }
+`)(() => 1);
+iso(`entrypoint Query.Home`);
+"#
+    .replace("`quoted`", "quoted")
+    .replace("LS", "\u{2028}")
+    .replace("PS", "\u{2029}");
+    let collision_schema = r#"
+type Query {
+  me: User
+  other: User__a
+}
+type User {
+  id: ID!
+  name: String
+}
+type User__a {
+  id: ID!
+  name: String
+}
+"#;
+    let collision = r#"import { iso } from './__isograph/iso';
+export const X = iso(`
+  field User.a__b {
+    name
+  }
+`)(() => 1);
+export const Y = iso(`
+  field User__a.b {
+    name
+  }
+`)(() => 1);
+export const Home = iso(`
+  field Query.Home {
+    me {
+      a__b
+    }
+    other {
+      b
+    }
+  }
+`)(() => 1);
+iso(`entrypoint Query.Home`);
+"#;
     vec![
+        (
+            Mini { name: "client-description", schema: BASE_SCHEMA.into(), sources: own(vec![("a.ts", client_desc)]), options: serde_json::json!({}) },
+            vec![],
+            vec![],
+        ),
+        (
+            Mini { name: "underscore-collision", schema: collision_schema.into(), sources: own(src(vec![("a.ts", collision)])), options: serde_json::json!({}) },
+            // open findings: Type__field names are not injective
+            vec!["duplicate-binding:underscore-name-collision"],
+            vec!["wrong-overload:underscore-name-collision"],
+        ),
         (
             Mini { name: "loadable", schema: BASE_SCHEMA.into(), sources: own(src(vec![("a.tsx", loadable)])), options: serde_json::json!({}) },
             vec![],
@@ -716,6 +794,15 @@ fn write_replays() {
     for (m, _, _) in &all {
         if let Some((_, sig, file)) = c13.iter().find(|(n, _, _)| *n == m.name) {
             write("C13", file, sig, "held (violated before the fix: commit in known_findings.json)", raw_of(m).to_json());
+        }
+    }
+    for (m, _, _) in &all {
+        if m.name == "underscore-collision" {
+            write("C13", "known-underscore-name-collision.json", "duplicate-binding:underscore-name-collision", "violated (open finding)", raw_of(m).to_json());
+            write("C24", "known-underscore-name-collision.json", "wrong-overload:underscore-name-collision", "violated (open finding)", raw_of(m).to_json());
+        }
+        if m.name == "client-description" {
+            write("C13", "regress-client-field-description-and-hostile-argument.json", "", "held", raw_of(m).to_json());
         }
     }
     // C24: one literal per layout class
